@@ -103,6 +103,45 @@ inductive WsSeparated : List Tok → Str → Prop
   | ws (p : Nat) (w : Str) (ts : List Tok) (txt : Str) : IsWsText w → Chain ts txt →
       WsSeparated (Tok.ws p w :: ts) (w ++ txt)
 
+/-- values a hash token that is NOT of type id can have: a lone `-`, or a first code point (after an
+optional `-`) that is a digit -/
+def NonIdValue (v : Str) : Prop :=
+  v = ['-'] ∨ (∃ d rest, v = d :: rest ∧ isDigit d = true) ∨ (∃ d rest, v = '-' :: d :: rest ∧ isDigit d = true)
+
+/-- the leaf token classes of `roundtrip_partial`, each with the text serialize.go writes for it:
+identifiers, closed strings, closed urls, at-keywords, hashes of both types, numbers, percentages,
+dimensions (any value / representation / unit), white space -/
+inductive Atom : Tok → Str → Prop
+  | ident (p : Nat) (s t : Str) : serializeIdentifier s = some t → Atom (.ident p s) t
+  | str (p : Nat) (s : Str) : Atom (.str p s false) ('"' :: serializeString s ++ ['"'])
+  | url (p : Nat) (s : Str) : (∀ c ∈ s, c ≠ '\x00') →
+      Atom (.url p s false) ('u' :: 'r' :: 'l' :: '(' :: (serializeUrl s ++ [')']))
+  | atkw (p : Nat) (s t : Str) : serializeIdentifier s = some t → Atom (.atkw p s) ('@' :: t)
+  | hashId (p : Nat) (s t : Str) : serializeIdentifier s = some t → Atom (.hash p s true) ('#' :: t)
+  | hashName (p : Nat) (s : Str) : NonIdValue s → Atom (.hash p s false) ('#' :: serializeName s)
+  | num (p : Nat) (r : Str) (f : Bool) : consumeNumber r = some (r, f, []) → Atom (.num p r f) r
+  | pct (p : Nat) (r : Str) (f : Bool) : consumeNumber r = some (r, f, []) → Atom (.pct p r f) (r ++ ['%'])
+  | dim (p : Nat) (r : Str) (f : Bool) (u t : Str) : consumeNumber r = some (r, f, []) →
+      serializeUnit u = some t → Atom (.dim p r f u) (r ++ t)
+  | ws (p : Nat) (w : Str) : IsWsText w → Atom (.ws p w) w
+
+def isWsTok : Tok → Bool
+  | .ws _ _ => true
+  | _ => false
+
+/-- the separator serialize.go writes between two adjacent tokens (neither is a `\\` literal) -/
+def sepOf (tbl : Pairs) (a b : Tok) : Str :=
+  if isBadPair tbl (serType a) (serType b) then ['/', '*', '*', '/'] else []
+
+/-- ANY sequence of adjacent atoms, except two white-space tokens in a row (unrepaired finding
+F20-8), with the text serialize.go writes for it -/
+inductive Seq (tbl : Pairs) : List Tok → Str → Prop
+  | nil : Seq tbl [] []
+  | one (t : Tok) (txt : Str) : Atom t txt → Seq tbl [t] txt
+  | cons (t : Tok) (txt : Str) (t2 : Tok) (ts : List Tok) (rest : Str) :
+      Atom t txt → Seq tbl (t2 :: ts) rest → (isWsTok t && isWsTok t2) = false →
+      Seq tbl (t :: t2 :: ts) (txt ++ sepOf tbl t t2 ++ rest)
+
 def Tok.setPos (q : Nat) : Tok → Tok
   | .ws _ v => .ws q v
   | .comment _ v => .comment q v
